@@ -64,7 +64,7 @@ def gen_random(rng, mn, mx, n, bias_full=False):
 
 
 def main(tier=None):
-    c = Check("C06", ["Wasp.Properties.C06", "Wasp.Properties.Facts.C06"], tier)
+    c = Check("C06", ["Wasp.Properties.C06", "Wasp.Properties.C06Lit", "Wasp.Properties.Facts.C06"], tier)
     c.build()
     rng = c.rng
     samples = []
